@@ -574,7 +574,10 @@ def filter_list(X, lf, node):
     X.assume(forall([j], z3.Implies(z3.And(0 <= j, j < src.n, pred(src.at(j))),
                                        z3.And(0 <= inv(j), inv(j) < n, emb(inv(j)) == j)),
                        patterns=[inv(j)] + [sa[j] for sa in src.ats]))
-    return ListV(E, n, ats)
+    out = ListV(E, n, ats)
+    X.list_info[ats[0].get_id()] = {'kind': 'filter', 'emb': emb, 'inv': inv, 'src': src}
+    X.list_info['last_filter'] = X.list_info[ats[0].get_id()]
+    return out
 
 
 def card(X, v):
@@ -981,7 +984,20 @@ def set_clear(X, obj, args, kw, node):
     return NONE
 
 
-SET_METHODS = {'add': set_add, 'discard': set_discard, 'remove': set_remove,
+def set_pop(X, obj, args, kw, node):
+    """set.pop(): removes and returns an arbitrary element; KeyError if empty."""
+    c = deref(obj)
+    if isinstance(c, Con):
+        X.raise_('KeyError', 'pop from an empty set', node=node)
+    if X.branch(c.arr == z3.K(c.K.sort, z3.BoolVal(False))):
+        X.raise_('KeyError', 'pop from an empty set', node=node)
+    k = X.fresh(c.K, 'popped')
+    X.assume(c.arr[k.t])
+    _write_back(X, obj, SetV(c.K, z3.Store(c.arr, k.t, False)), node)
+    return k
+
+
+SET_METHODS = {'pop': set_pop, 'add': set_add, 'discard': set_discard, 'remove': set_remove,
                'clear': set_clear}
 
 
